@@ -98,6 +98,25 @@ Fixpoint sl_delete_many (w : slw) (es : list entity) : slw * bool :=
   | e :: r => let '(w', ok) := sl_delete w e in if ok then sl_delete_many w' r else (w', false)
   end.
 
+(* The same in the statement order of the code: Allocator::kill over the
+   slice first (each live entity dies and its index goes to the cache; the
+   loop stops at the first handle that is not alive), delete_components for
+   the killed prefix afterwards.  MarkerProps.delete_many_stmt_eq: equal to
+   sl_delete_many on every world and every slice. *)
+Definition kill_only (w : slw) (e : entity) : slw :=
+  with_life w (set_cell (sl_life w) (fst e) (Free (snd e))) (fst e :: sl_free w).
+
+Fixpoint kill_loop (w : slw) (es : list entity) : slw * list N * bool :=
+  match es with
+  | [] => (w, [], true)
+  | e :: r => if w_alive w e
+              then let '(w', ks, ok) := kill_loop (kill_only w e) r in (w', fst e :: ks, ok)
+              else (w, [], false)
+  end.
+
+Definition sl_delete_many_stmt (w : slw) (es : list entity) : slw * bool :=
+  let '(w', ks, ok) := kill_loop w es in (fold_left purge ks w', ok).
+
 (* entities.delete(e): deferred *)
 Definition sl_edelete (w : slw) (e : entity) : slw * bool :=
   let '(s', ok) := l_kill_def (sl_life w) e in (with_life w s' (sl_free w), ok).
